@@ -38,6 +38,14 @@ def make_dataset(ctx, e2e, rng, name, i, big=False):
         return None
     WF.place_pressures(rng, cfg, p_lo, p_hi)
     cfg["output"] = {"pressure_base": ["cij", "cij_t", "bm_VRH", "G_VRH", "v", "vs", "vp", "bm_R", "G_R"], "volume_base": ["p", "cij", "bm_V"]}
+    if i % 2:
+        # entries the schema lets through and the program has no use for, spelled like real keywords in another letter case: whatever
+        # is done with them must not depend on the order in which a merged dictionary happens to be walked
+        qs_ = cfg["qha"]["settings"]
+        qs_["dt"] = float(qs_["DT"]) / 2
+        qs_["nt"] = int(qs_["NT"]) + 3
+        qs_["Delta_P"] = float(qs_["DELTA_P"]) * 0.5
+        cfg["elast"]["settings"]["mode_gamma"]["Order"] = int(cfg["elast"]["settings"]["mode_gamma"]["order"]) + 1
     path = WF.write_dataset(ds, cfg, wd)
     return ds, cfg, wd, path
 
